@@ -222,15 +222,22 @@ PROPS = {
         'sidecars': ['contracts/c09_flow.py'],
         'native': 'c09', 'ground': True,
         'level': 'other',
-        'explanation': 'Proved from the real source (kernel of the merge): match_rso is the join of the flat yes/no/maybe lattice; '
-                       'State.__init__/State.copy/trace_state keep the three flags; combine_states joins the flags of both paths, '
-                       'counts a name absent on the other path as no, and stays in the lattice. The 9 cells of match_rso are also '
-                       'decided by evaluation. Bounded (B-tifa-flow): exactness of the diagnoses on the real tool for all small '
-                       'branch programs against an oracle that enumerates every combination of branch outcomes, and no missed '
-                       'uninitialised read on random loop/function programs against instrumented real execution of every choice '
-                       'sequence. The visitors, merge_paths, store/load_variable and _finish_scope are covered only by the bounded part.',
-        'trusted_base': ['TIFA visitors, NewPath, merge_paths, store_variable/load_variable, _finish_scope: bounded part only',
-                         'is_subtype / type_changes / locate / _issue as abstract callees inside combine_states'],
+        'explanation': 'Proved from the real source (the diagnosis rules and the merge): load_variable reports an Initialization '
+                       'Problem exactly when the name is unknown everywhere or its set flag is no, a Possible Initialization Problem '
+                       'exactly when the flag is maybe, an out-of-scope read exactly when the name exists only elsewhere, nothing '
+                       'when the flag is yes, and marks the new state read; store_variable makes a new/forced name set-and-unread, '
+                       'marks set-but-never-read names overwritten and otherwise resets read; _finish_scope issues one Unused '
+                       'Variable per in-scope name whose read flag is no (and is not _) and one Overwritten per over == yes, '
+                       'nothing else (counting invariant over the name map); match_rso is the join of the flat yes/no/maybe '
+                       'lattice; State.__init__/copy/trace_state keep the flags; combine_states joins both paths and counts an '
+                       'absent name as no. The 9 cells of match_rso are also decided by evaluation. What connects these rules to '
+                       'programs - the visitors, NewPath, merge_paths, the scope walk find_variable_scope - is covered only by '
+                       'the bounded stand-in B-tifa-flow (exhaustive small branch programs vs a branch-outcome oracle; loop and '
+                       'function programs vs instrumented real execution).',
+        'trusted_base': ['TIFA visitors, NewPath, merge_paths, find_variable_scope / find_variable_out_of_scope (abstract callees '
+                         'returning an Identifier), in_scope: bounded part only',
+                         'is_subtype / type_changes / locate / _issue and the feedback constructors as abstract callees '
+                         '(ghost counters per issue kind)'],
     },
     'C10': {
         'sidecars': ['contracts/c10_cait.py'],
